@@ -9,7 +9,7 @@ CONFIG = {
     "trusted_base": [
         KERNEL, TRANSLATOR + " (ReflectGen.v: case arms of buildSchema / buildScalarType / wktSchema, type-switch arms of newFieldFactory / newMessageFieldFactory)", CORR, HARNESS,
         "abstract descriptor dump (harness/descgen/dump.go): protoreflect descriptors and option extension values -> Coq desc term; float32 bounds widened to float64 bits, list-rule / entity-ref payloads as opaque tokens (fnv of the deterministic encoding), descriptions computed with a copy of buildComment, strcase.ToLowerCamel of oneof names supplied as data",
-        "modelled, not verified: protodesc.NewFiles (what a linked set guarantees is the hypothesis wf_desc), protoreflect accessors, the codec below newPropSet / buildProperty (encoder and decoder bodies belong to C01/C06/C08)",
+        "modelled, not verified: protodesc.NewFiles, protoreflect accessors, strcase.ToLowerCamel (supplied as data), the codec below newPropSet / buildProperty (encoder and decoder bodies belong to C01/C06/C08). The theorems carry explicit hypotheses (wf_total / wf_keys / json_ok / wf_paths) that a linked descriptor set does NOT all guarantee: split names of messages / enums / real oneofs distinct (violated by `message Bar { enum Kind }` + `message Bar_Kind`), JSON names of fields AND exposed oneofs distinct (protoc checks fields only: violated by `oneof foo_bar {expose}` + field `fooBar`); both violations are proved refutations and known findings",
     ],
     "assumptions": [
         "model/Reflect.v is the hand-written model of schema_from_proto.go, schema_cache.go, ClientProperties and newPropSet/buildProperty; tied to the code by the correspondence stream of this run (outcome class, whole reflected schema set, client-property flags, codec usability class per reflected type, cache-history classes) and by the regenerated switch-arm tables",
@@ -20,15 +20,16 @@ CONFIG = {
         "C18_split_name_collision_refuted: ~ C18_full_statement (enum and message with the same split name: Panic in buildEnumFieldSchema; known finding)",
         "C18_struct_codec_refuted: wf_total set that reflects consistently but codec_classes = (0,1) (google.protobuf.Struct; known finding)",
         "C18_flatten_names_refuted: client properties with a duplicate name after flattening (known finding)",
+        "C18_exposed_oneof_name_clash_refuted: split names, field JSON names and field numbers all distinct, yet object M has two properties fooBar (exposed oneof foo_bar + field fooBar; known finding, found by the audit)",
     ],
     "partial": [
         "C18_reflect_total / C18_cache_schema_total: totality for all descriptor sets satisfying wf_total (enums non-empty; enum split names apart from message / oneof split names)",
-        "C18_reflect_ok_guarantees (wf_desc): distinct keys, no placeholder, unique property names per object / oneof, known scalar formats, closed references are theorems; that every proto path resolves to a field of the matching kind (props_resolve) and codec usability (codec_classes) are executable predicates compared with the real reader / codec on every case, not yet theorems",
+        "C18_reflect_ok_guarantees (wf_keys; names under json_ok) and C18_reflect_consistent (wf_paths = wf_keys + json_ok + distinct field numbers per message): distinct keys, no placeholder, known scalar formats, closed references, every proto field path resolving to a field of the matching kind are theorems for every successful reflection; uniqueness of property names is proved only RELATIVE to the hypothesis that the JSON names of a message's fields and exposed oneofs are distinct (the reader introduces no duplicate), which real inputs can violate; C18_flatten_graph_acyclic (no hypothesis) and C18_client_properties_terminate (wf_keys): the flatten graph of every reflected set is acyclic and ClientProperties of every entry returns within fuel |S|+1 without a failed type assertion; C18_prop_sets_build (wf_keys + distinct field numbers): newPropSet succeeds on every reflected message type (empty message encodable / decodable); the per-property half of codec usability (buildProperty over every client property: second component of codec_classes) is an executable predicate compared with the real codec on every case, not a theorem",
     ],
 }
 
 MANIFEST = {
     "text": "Theorems over a Gallina model of the proto-to-J5 schema reader (SchemaSetFromFiles / SchemaCache.Schema with placeholder recursion, all of buildScalarType / buildFromStringProto / wktSchema / buildEnum / messageProperties incl. exposed oneofs, checkFlattenCycle, ClientProperties, newPropSet / buildProperty), for all abstract proto3 descriptor sets with arbitrary annotation trees.",
-    "note": "Proved for all descriptor sets with non-empty enums and no enum/message split-name collision: the reader (incl. SchemaCache over any call history) never panics and never exhausts fuel |messages|+1. Also proved (wf_desc): a successful reflection has distinct keys, no unlinked placeholder, pairwise distinct property names per object / oneof, known scalar formats and closed references. Partial: paths-resolve and codec-usable are checked per case against the real code (model predicates), not proved for all inputs; three refutation witnesses of the full statement are proved (name collision, Struct, flatten name clash) and listed as known findings. Entry point with dynamicpb extension values is outside the property (observation only). Trusted: Coq kernel; translator; harness and descriptor dump.",
+    "note": "Proved for all descriptor sets with non-empty enums and no enum/message split-name collision: the reader (incl. SchemaCache over any call history) never panics and never exhausts fuel |messages|+1. Also proved under wf_keys (a hypothesis, not a guarantee of a linked set: split names distinct): a successful reflection has distinct keys, no unlinked placeholder, known scalar formats, closed references; and under json_ok in addition (JSON names of fields and exposed oneofs distinct, again not guaranteed) no duplicate property name is introduced by the reader. Also proved (wf_paths): every recorded proto field path resolves to a field of the matching kind (C18_reflect_consistent). Also proved: the flatten graph of every successfully reflected set is acyclic (no hypothesis) and, under wf_keys, ObjectSchema.ClientProperties returns for every entry (no unbounded recursion, no failed type assertion). Also proved (wf_keys + distinct field numbers): the codec's property set builds for every reflected message type. Partial: usability of each single property (buildProperty) is checked per case against the real code (model predicate), not proved for all inputs; four refutation witnesses are proved (split-name collision: panic; Struct: codec cannot build; flatten name clash; exposed-oneof / field JSON name clash) and listed as known findings. Entry point with dynamicpb extension values is outside the property (observation only). Trusted: Coq kernel; translator; harness and descriptor dump.",
     "technique": "Rocq/Coq proof (invariant over the placeholder recursion) + regenerated switch-arm tables + in-Coq differential correspondence on generated descriptor sets in crash-isolated workers",
 }
